@@ -27,6 +27,7 @@ PROPERTY = {
         "dopri5 stepping with interpolated history is first-order accurate in the history)",
     ],
 }
+PROPERTY["rule"] += ' A third of the run cases are vectorised; a delay parameter may be overridden per node.'
 
 DELAYS = [0.05, 0.1, 0.2, 0.35, 0.15]
 
